@@ -63,7 +63,8 @@ class P(Prop):
             "Log<Poly0..8> (positive breakpoints for logs), duplicate breakpoints, knots inside / at the edge of / beyond the "
             "first piece and far right of it; bit-exact model vs crate; oracle: same breakpoints, the three entry points agree, "
             "first piece through k0, adjacent pieces agree at every interior breakpoint within the rounding bound (exact "
-            "rationals for polynomials, 400-bit arithmetic for logs). non-trivial = >= 3 pieces; distinct by input")
+            "rationals for polynomials, 400-bit arithmetic for logs). non-trivial = >= 3 pieces; distinct by input"
+            " Also: both iterators consumed through nth / skip / step_by, 513..1025 (thorough ..1500) pieces, log pieces with breakpoints within 1% of 1.")
     TRUSTED = ["translator rs2coq", "skeleton PwModel.integral_iter / pw_indefinite (one model for by-value and by-ref iterators) tied by correspondence"]
     ASSUMPTIONS = ["libm ln/exp as oracles", "IEEE-754 arithmetic"]
 
@@ -100,6 +101,20 @@ class P(Prop):
             if op == "pw_integral_all":
                 c["knot"] = [C.bits(kx), C.bits(ky)]
             out.append(c)
+        # the two iterators consumed through nth / skip / step_by instead of a plain collect (same model: the list collect gives)
+        for _ in range(16 if tier == "quick" else 200):
+            ty = rng.choice(["Poly0", "Poly1", "Poly2", "Poly3", "Log<Poly1>", "Log<Poly2>"])
+            log = ty.startswith("Log")
+            k = rng.randint(1, 7)
+            es = [0.5 * (i + 1) for i in range(k)]
+            sg = [[C.bits(e)] + [C.bits(rng.choice([rng.small_int(-4, 4), rng.uniform(-2, 2)])) for _ in range(G.arity(ty))] for e in es]
+            kn = [C.bits(rng.choice([0.25, 0.5, 1.0])), C.bits(rng.choice([0.0, 1.0, -2.0]))]
+            out.append(dict(op="integral_iter_adaptors", ty=ty, segs=sg, knot=kn, libm=log, meta={"class": "integral/adaptors"}))
+        for k in (513, 600, 1025) if tier == "quick" else (513, 600, 768, 769, 1025, 1500):
+            ty = "Poly0"
+            es = [float(i + 1) for i in range(k)]
+            sg = [[C.bits(e), C.bits(float(i % 3 + 1))] for i, e in enumerate(es)]
+            out.append(dict(op="pw_integral_all", ty=ty, segs=sg, knot=[C.bits(0.0), C.bits(1.0)], libm=False, meta={"class": "integral/very_long"}))
         for k in (17, 33, 65, 100):
             ty = rng.choice(["Poly1", "Poly2"])
             es = [float(i + 1) * 0.5 for i in range(k)]
@@ -179,13 +194,15 @@ class P(Prop):
         ln, ex = C.ztable(h.get("ln", [])), C.ztable(h.get("exp", []))
         kint = C.kname("Segment<%s>::integral" % ty)
         kev = C.kname("Segment<%s>::evaluate" % int_type(ty))
-        if case["op"] == "pw_integral_all":
+        if case["op"] in ("pw_integral_all", "integral_iter_adaptors"):
             return "run_pw_integral %s %s %s %s %s %s" % (ln, ex, kint, kev, C.zlistlist(case["segs"]), C.zlist(case["knot"]))
         kind = C.kname("Segment<%s>::indefinite" % ty)
         return "run_pw_indefinite %s %s %s %s %s %s" % (ln, ex, kint, kind, kev, C.zlistlist(case["segs"]))
 
     def compare(self, case, hres, mres):
         # one model run stands for all three entry points (Piecewise::integral, integral_iter, integral_iter_ref)
+        if case["op"] == "integral_iter_adaptors" and isinstance(hres.get("r"), list) and mres is not None:
+            mres = list(mres) * 4
         if case["op"] == "pw_integral_all" and isinstance(hres.get("r"), list) and mres is not None:
             mres = list(mres) * 6
         return Prop.compare(self, case, hres, mres)
@@ -215,8 +232,15 @@ class P(Prop):
                 rest = rest[ux:]
                 if [list(map(C.canon, p)) for p in px] != [list(map(C.canon, p)) for p in pieces]:
                     return "%s produces different pieces than Piecewise::integral" % what
+        if case["op"] == "integral_iter_adaptors":
+            rest = r[used:]
+            for what in ("skip(i).next()", "step_by(2) interleaved with skip(1).step_by(2)", "by-reference nth(i)"):
+                px, ux = split_segs(rest, n)
+                rest = rest[ux:]
+                if [list(map(C.canon, p)) for p in px] != [list(map(C.canon, p)) for p in pieces]:
+                    return "integral_iter consumed through %s produces different pieces than through nth(i)" % what
         if len(pieces) != len(segs):
-            return "result has %d pieces for %d input pieces" % (len(pieces), len(segs))
+            return "result has %d pieces for %d input pieces (%s)" % (len(pieces), len(segs), case["op"])
         for i, (a, b) in enumerate(zip(segs, pieces)):
             if C.canon(a[0]) != C.canon(b[0]):
                 return "breakpoint %d changed" % i
@@ -243,7 +267,7 @@ class P(Prop):
             return c * U * (m1 + m2 + abs(extra)) + Fraction(1, 2 ** 1060)
 
         # first piece through k0
-        if case["op"] == "pw_integral_all":
+        if case["op"] in ("pw_integral_all", "integral_iter_adaptors"):
             kx, ky = C.fl(case["knot"][0]), C.fl(case["knot"][1])
             v, m = eval_piece_exact(ity, pieces[0][1:], kx)
             kyx = hp.mpf(ky) if log else Fraction(ky)
